@@ -204,6 +204,28 @@ Theorem C11_chunks_decode :
 Proof. exact run_decodes. Qed.
 Print Assumptions C11_chunks_decode.
 
+(* 4b. end to end on bytes: a receiver that decodes the chunks emitted up to a flush, in emission order (unwrap,
+   gunzip when flagged, split into records; the four decoders are parameters assumed to invert the encoders and
+   the record splitters to recover self-delimiting records) obtains exactly the written records, in order. *)
+Theorem C11_receiver_reconstructs :
+  forall (R : Type) (rlen : R -> Z) (rbytes : R -> bytes)
+         (gz gunz : bytes -> bytes)
+         (mp_wrap : bytes -> bool -> Z -> bytes -> bool -> bytes -> bytes)
+         (mp_unwrap : bytes -> option (bytes * bool * Z * bytes * bool * bytes)),
+  (forall b, gunz (gz b) = b) ->
+  (forall tag arr n id c d, mp_unwrap (mp_wrap tag arr n id c d) = Some (tag, arr, n, id, c, d)) ->
+  forall parse_forward parse_json_array : bytes -> option (list R),
+  (forall g, parse_forward (concat (map rbytes g)) = Some g) ->
+  (forall g, parse_json_array (json_array_bytes (map rbytes g)) = Some g) ->
+  forall (cfg : config) (ops : list (op R)),
+  let (st', em) := run R rlen cfg pstate_init (ops ++ [OFlush]) in
+  all_received R
+    (map (fun e => receive R gunz mp_unwrap parse_forward parse_json_array cfg
+                     (chunk_data R rbytes gz mp_wrap cfg e)) em)
+  = Some (written_of ops).
+Proof. exact receiver_reconstructs_lemma. Qed.
+Print Assumptions C11_receiver_reconstructs.
+
 (* Non-vacuity: a concrete run (CompressedPackedForward, 2 records / 100 bytes per chunk; three writes at the
    same clock reading, two flushes, one more write) satisfies the hypotheses of 3d and gives two chunks
    [r1 r2] [r3] with counts 2, 1, ids ...01-00000000.ff, ...01-00000001.ff, and [r4] still buffered. *)
